@@ -891,7 +891,7 @@ func (p *Prog) condCallFacts(cond ssa.Value, val bool) relSet {
 				continue
 			}
 		case "nil":
-			if lit && r != "nil" {
+			if lit && r != "nil" || neverNilKey(r) {
 				continue
 			}
 		case "!nil":
